@@ -8,12 +8,57 @@ def kw(rng, i):
     return {"max_requests": None, "queue_size": rng.choice([None, 10]), "policy": rng.choice(["fifo", "random", "lifo"]), "crashes": True, "worker": rng.choice(["asyncio", "trio"])}
 
 
+def real_task_groups(ctx):
+    """The real TaskGroup of both workers (the rig's applications run under the asyncio _handle wrapper only): an application
+    that fails - directly or from a child task of its own task group, so that the server sees an exception group - gets a
+    500 when nothing was sent yet, its connection is closed, the handler ends without an error, and the server lives on."""
+    from . import c16
+    from . import rig as R
+    from . import rworker as W
+
+    fails, n = [], 0
+    start = ("send", {"type": "http.response.start", "status": 200, "headers": []})
+    part = ("send", {"type": "http.response.body", "body": b"part", "more_body": True})
+    for how in ("raise", "raise-nested"):
+        for when in ("before-start", "after-start", "mid-body"):
+            steps = [("recv_all",)] + {"before-start": [], "after-start": [start], "mid-body": [start, part]}[when] + [(how,)]
+            script = [("send", b"GET /a HTTP/1.1\r\nHost: x\r\n\r\n"), ("sleep", 1.0)]
+            for backend, run in (("asyncio", W.run_asyncio), ("trio", W.run_trio)):
+                cfg = R.make_config(())
+                cfg._log = R.RecLog([])
+                cfg.keep_alive_timeout = 5.0
+                res = run(c16.scripted([steps]), cfg, script, tail=30.0)
+                n += 1
+                obs = c16.normalise(res, None)
+                case = {"kind": "real-task-group", "backend": backend, "how": how, "when": when, "wire": repr(obs["wire"][:80]),
+                        "handler_error": obs["handler_error"], "closed_at": obs["closed_at"]}
+                if obs["handler_error"] is not None or obs["leftovers"]:
+                    fails.append({"case": case, "what": f"the application's failure left the connection handler with {obs['handler_error']!r}",
+                                  "signature": "c05:failure-escapes-the-connection"})
+                elif when == "before-start" and not obs["wire"].startswith(b"HTTP/1.1 500 "):
+                    fails.append({"case": case, "what": "no 500 for an application that failed before responding", "signature": "c05:no-500"})
+                elif when != "before-start" and (obs["wire"].endswith(b"0\r\n\r\n") or obs["closed_at"] is None):
+                    fails.append({"case": case, "what": "a response cut short by the application's failure looks complete or the connection stays open",
+                                  "signature": "c05:false-complete"})
+    return fails, n
+
+
 def run(ctx):
+    h2x = K.h2_extra(["c05", "c02"], (150, 2500, 800), crashes=True)
+
+    def extra(c):
+        r = h2x(c)
+        f, n = real_task_groups(c)
+        r["failures"] = list(r["failures"]) + f
+        r["count"] += n
+        r["dist"]["real_task_group_sessions"] = n
+        return r
+
     return K.run_common(ctx, PROP, ["c05", "c06"], (200, 2500, 800), (300, 3000, 1000), (350, 5000, 2000), kw,
                         "application scripts that raise or return at every point (before reading, before/after the response start, "
                         "mid-body) crossed with keep-alive pipelines; the client-side h11 parser must see a 500 or a visibly "
                         "incomplete response, never a complete one, and nothing more may be served on the connection.",
-                        extra=K.h2_extra(["c05", "c02"], (150, 2500, 800), crashes=True))
+                        extra=extra)
 
 
 def known_still_fails(k):
